@@ -59,7 +59,14 @@ ForString(w) ==
           ELSE Step("strpos(X, " \o LitOf(Q[j][1]) \o ", " \o p.t \o ")")])
   \o (LET Q == SetToSeq({<<2>>, <<5>>, <<2, 2>>, <<1>>, <<>>, w}) IN [j \in DOMAIN Q |->
           W("replace(X, " \o LitOf(Q[j]) \o ", \"__\")", VStr(Replace(x, ValOf(Q[j]), "__")))])
-  \o << W("replace(X, \"a\", X)", VStr(Replace(x, "a", x))), Step("tokenize(X, \",\")"), Step("tokenize(X, \",\", true)"), Step("tokenize(X, X)"), Step("tokenize(X, \"\")"),
+  \o << W("replace(X, \"a\", X)", VStr(Replace(x, "a", x))) >>
+  \* tokenize: pinned for a non-empty string and a non-empty separator (the values between the separators; empty ones dropped on request)
+  \o (IF n >= 1 THEN (LET TabOf(ps) == VTab(TStr, [j \in DOMAIN ps |-> VStr(ps[j])]) IN
+                      << W("tokenize(X, \",\")", TabOf(Split(x, ","))), W("tokenize(X, \",\", true)", TabOf(NonEmpty(Split(x, ",")))),
+                         W("tokenize(X, \",\", false)", TabOf(Split(x, ","))), W("tokenize(X, \"a \")", TabOf(Split(x, "a "))),
+                         W("tokenize(X, X)", TabOf(<<"", "">>)), W("tokenize(X, X, true)", TabOf(<<>>)) >>)
+      ELSE << Step("tokenize(X, \",\")"), Step("tokenize(X, \",\", true)"), Step("tokenize(X, X)") >>)
+  \o << Step("tokenize(X, \"\")"),
         W("X", VStr(x)) >>                 \* the argument is unchanged after all of this
 
 NumSym == <<" ", "+", "-", "0", "9", ".", "e", "x", "a">>
